@@ -579,10 +579,16 @@ func (e *c17Env) drain() bool {
 func (e *c17Env) probe() bool {
 	e.trySettle()
 	var ps []*c17Client
-	for i := 0; i < e.lastCap+1; i++ {
+	n, want := e.lastCap+1, e.lastCap
+	if e.lastCap > 16 {
+		// a cap too large to be filled (maxConnections around the capacity of the semaphore underneath,
+		// 20,000,000): probed from below only - a handful of clients are all served
+		n, want = 6, 6
+	}
+	for i := 0; i < n; i++ {
 		ps = append(ps, e.dial())
 	}
-	e.expectServed(ps, e.lastCap)
+	e.expectServed(ps, want)
 	time.Sleep(80 * time.Millisecond)
 	return e.drain()
 }
